@@ -9,8 +9,9 @@ ID = "C18"
 CASES = {"quick": 600, "thorough": 10000}
 RULE = ("seeded consistently typed feature-structure pairs (depth <=2, atomic / unspecified / nested values, shared "
         "variables) unified in both argument orders against a union-find reference; seeded FCFGs (<=3 variables, "
-        "<=6 productions, agreement variables shared between head and body, epsilon productions, ambiguity, left "
-        "recursion; built through from_text and through FeatureProduction) x all words <=4 against the "
+        "<=6 productions, agreement variables shared between head and body, nested agreement structures, two "
+        "features over one value domain linked by one variable, epsilon productions with feature variants, ambiguity, "
+        "left recursion, a variable named like the parser's dummy start; built through from_text and FeatureProduction) x all words <=4 against the "
         "instantiate-every-variable plain-CFG oracle x PYTHONHASHSEED (the Earley agenda is filled in "
         "production-set order); non-trivial = bounded language has >=2 words and a word is rejected; distinct = "
         "(descriptor digest, production-set order signature)")
